@@ -5,6 +5,7 @@ import typing as t
 from sqlglot import exp, generator
 from sqlglot.generators.hive import HiveGenerator
 from sqlglot.generators.trino import TrinoGenerator
+from sqlglot.jsonpath import ALL_JSON_PATH_PARTS
 
 
 def _is_iceberg_table(properties: exp.Properties) -> bool:
@@ -116,7 +117,13 @@ class AthenaTrinoGenerator(TrinoGenerator):
     }
 
     TRANSFORMS = {
-        **TrinoGenerator.TRANSFORMS,
+        # TrinoGenerator.TRANSFORMS only loses its unsupported JSON path parts when the Trino dialect class is created,
+        # which may be before or after this module is imported: drop them here so the copy is the same either way
+        **{
+            k: v
+            for k, v in TrinoGenerator.TRANSFORMS.items()
+            if k not in ALL_JSON_PATH_PARTS - TrinoGenerator.SUPPORTED_JSON_PATH_PARTS
+        },
         exp.PartitionedByProperty: _partitioned_by_property_sql,
         exp.LocationProperty: _location_property_sql,
     }
